@@ -66,13 +66,18 @@ func NewWithOptions(opts *Options) *OrefaFS {
 		curDir = volumeName + string(vfs.PathSeparator())
 	}
 
-	vfs.nodes = make(nodes)
-	vfs.nodes[volumeName] = &node{
+	rootNode := &node{
 		mode:  fs.ModeDir | 0o755,
 		mtime: time.Now().UnixNano(),
 		uid:   0,
 		gid:   0,
 	}
+
+	// the root directory is indexed as the parent of its entries (the volume name, see avfs.SplitAbs)
+	// and under its own absolute path.
+	vfs.nodes = make(nodes)
+	vfs.nodes[volumeName] = rootNode
+	vfs.nodes[curDir] = rootNode
 
 	_ = vfs.SetCurDir(curDir)
 
